@@ -127,6 +127,15 @@ func (x *Exec) resolveType(pkgPath string, e ast.Expr) types.Type {
 				return types.NewSlice(t)
 			}
 		}
+	case *ast.MapType:
+		k, v := x.resolveType(pkgPath, e.Key), x.resolveType(pkgPath, e.Value)
+		if k != nil && v != nil {
+			return types.NewMap(k, v)
+		}
+	case *ast.StructType:
+		if e.Fields == nil || len(e.Fields.List) == 0 {
+			return types.NewStruct(nil, nil)
+		}
 	case *ast.SelectorExpr:
 		if id, ok := e.X.(*ast.Ident); ok {
 			if p := x.importedPkg(pkgPath, id.Name); p != nil {
